@@ -440,7 +440,7 @@ class Verifier(Engine):
             fi = self.repo.func(prefix + name)
         except Exception:
             return None
-        if fi.node.decorator_list:
+        if [ast.unparse(d) for d in fi.node.decorator_list] not in ([], ["staticmethod"]):
             return None
         return fi.node
 
@@ -798,6 +798,13 @@ class Verifier(Engine):
         for kk, sp in self.c.loops.items():
             if sp.fingerprint == fp and fp not in own:
                 return f"h{kk}", sp
+        # the iterable is a parameter of the helper: same loop variable, and the contract's loop is not one of the
+        # function's own any more (it moved into the helper)
+        if isinstance(node, ast.For):
+            tgt = "for " + ast.unparse(node.target) + " in "
+            cands = [(kk, sp) for kk, sp in self.c.loops.items() if sp.fingerprint.startswith(tgt) and sp.fingerprint not in own]
+            if len(cands) == 1:
+                return f"h{cands[0][0]}", cands[0][1]
         return None, None
 
     def _modified(self, body, st: State):
